@@ -214,6 +214,11 @@ theorem bal_cmd (fuel : Nat) (ih : Bal fuel) : ∀ s c, (execCmd (fuel+1) s c).1
         cases e <;> simp [h1]
       · simp [h1]
   | fundef name body => simp [execCmd]
+  | expErr => simp [execCmd]
+  | assignErr => simp [execCmd]
+  | redirErr k => simp only [execCmd]; cases k <;> simp
+  | specialErr w st => simp [execCmd]
+  | trapExit body => simp [execCmd]
   | group body => simp [execCmd, ih.list]
   | subshell body =>
     simp only [execCmd]
